@@ -106,6 +106,13 @@ def run(R, env):
                 R.ob("C19.R2", "miniwasm:%s:one-stargate" % kind, len(stargates) == 1, "found %d Stargate constructions" % len(stargates), fn=fk)
                 for sbi, ssi, st in stargates:
                     url, val = agg_field(st, "type_url"), agg_field(st, "value")
+                    from engine.analysis import forms as _forms19
+                    # (`msg.to_any()?.type_url / .value` of the bindings' MessageExt: judged on what to_any builds)
+                    for f_ in (_forms19(prog, url, 3) if url is not None else []):
+                        if const_str(f_) is not None or (f_[0] == "item" and f_[1].endswith("TYPE_URL")):
+                            url = f_
+                            break
+                    val_forms = list(_forms19(prog, val, 3)) if val is not None else []
                     if url is not None and url[0] == "item" and url[1].endswith("TYPE_URL") and const_str(url) is None:
                         # `M::TYPE_URL` of a generic wrapper: M is the type of the message whose bytes are
                         # the value (checked below), so the constant is that type's registered URL
@@ -113,7 +120,9 @@ def run(R, env):
                         if len(regs) == 1 and "str" in (regs[0]["assoc_consts"].get("TYPE_URL") or {}):
                             url = ("const", "str", regs[0]["assoc_consts"]["TYPE_URL"]["str"])
                     R.ob("C19.R2", "miniwasm:%s:type_url" % kind, url is not None and fqn is not None and const_str(url) == "/" + fqn, "type_url %s, expected \"/%s\" (the protobuf name of %s)" % (fmt(url or ("none",)), fqn, adt.split("::")[-1]), loc=sbi, fn=fk)
-                    carries = val is not None and any(s_[0] == "call" and s_[1].endswith("MessageExt::to_bytes") and norm(s_[2][0]) == norm(t) for s_ in subterms(val))
+                    from engine.analysis import resolve_terms as _rt19
+                    tn = {norm(t), norm(_rt19(prog, t, 2))}
+                    carries = val is not None and any(s_[0] == "call" and s_[1].endswith("MessageExt::to_bytes") and (norm(s_[2][0]) in tn or norm(_rt19(prog, s_[2][0], 2)) in tn) for v_ in [val] + val_forms for s_ in subterms(v_))
                     R.ob("C19.R2", "miniwasm:%s:value-is-to_bytes-of-that-message" % kind, carries, "Stargate.value is not to_bytes() of the %s built in this function" % adt.split("::")[-1], loc=sbi, fn=fk)
                 okv = ok_payload(resolve_terms(prog, c.T.return_term(), 2))
                 good = all(a_[0] == "agg" and a_[2] == "Stargate" for a_ in (okv[1] if okv[0] == "phi" else (okv,)))
